@@ -162,11 +162,40 @@ GOLDEN = {
 }
 
 
+SCOPE_SPEC = {
+    "calls": [("resolve", r"resolver::Resolve>::resolve$|resolver::Resolve::resolve$"), ("resolve_block", r"::resolve_block$"),
+              ("resolve_reference", r"::resolve_reference$"), ("for_body", r"Local::for_body$"),
+              ("insert", r"HashMap::<K, V, S>::insert$"), ("default", r"Global as core::default::Default>::default$"),
+              ("update", r"HashMap::<K, V, S>::update$"), ("union", r"HashMap::<K, V, S>::union$"), ("get", r"HashMap::<K, V, S>::get$"),
+              ("add_dependency", r"::add_dependency$"), ("push_back", r"Vector::<A>::push_back$"), ("is_none", r"Option::<T>::is_none$"),
+              ("err", r"ResolveError::\w+$"), ("binders", r"Binders>::binders$"), ("users", r"ArenaForth.*insert_new$|::insert_new$"),
+              ("fold", r"::fold$|::try_fold$"), ("source", r"TextualProgramBuilder::<'graph>::source$"),
+              ("boundary", r"syntax::SourceBoundary$|syntax::SignatureBoundary$"), ("ann", r"^zydeco_syntax::Ann$")],
+    "assign": [r"boundary", r"under_map", r"var_to_def"],
+    "branch_ifs": True,
+}
+GOLDEN["golden_scope.json"] = (SCOPE_SPEC, [
+    ("Resolve for TermId", "<zydeco_surface::bitter::syntax::TermId as zydeco_surface::scoped::resolver::Resolve>::resolve", "seq"),
+    ("Resolve for PatId", "<zydeco_surface::bitter::syntax::PatId as zydeco_surface::scoped::resolver::Resolve>::resolve", "seq"),
+    ("MobileCandidate::resolve", "zydeco_surface::scoped::blocks::MobileCandidate::resolve", "seqwhole"),
+    ("BlockScope::new", "zydeco_surface::scoped::blocks::BlockScope::new", "seqwhole"),
+    ("resolve_reference", "zydeco_surface::scoped::resolver::Resolver::<'a>::resolve_reference", "seqwhole"),
+    ("add_dependency", "zydeco_surface::scoped::resolver::Resolver::<'a>::add_dependency", "seqwhole"),
+    ("TextualProgramBuilder::import", "zydeco_session::source::program::TextualProgramBuilder::<'graph>::import", "seqwhole"),
+    ("TextualProgramBuilder::source", "zydeco_session::source::program::TextualProgramBuilder::<'graph>::source", "seqwhole"),
+])
+
+
 def compute(facts, fname):
     spec, fns = GOLDEN[fname]
     out = {}
     for label, fn, mode in fns:
-        t = extract(facts, fn, spec) if mode == "match" else extract_whole(facts, fn, spec)
+        if mode == "seq":
+            t = extract_seq(facts, fn, spec)
+        elif mode == "seqwhole":
+            t = extract_seq_whole(facts, fn, spec)
+        else:
+            t = extract(facts, fn, spec) if mode == "match" else extract_whole(facts, fn, spec)
         out[label] = {"fn": fn, "arms": None if t is None else {k: v["events"] for k, v in t.items()},
                       "lines": None if t is None else {k: v["ln"] for k, v in t.items()}}
     return out
@@ -189,6 +218,188 @@ def check(ctx, rule, fname):
         compare(ctx, rule, label, fn, table, r["arms"], loc)
 
 
+# ----------------------------------------------------------------------------------------------------------------------
+# flow-sensitive traces (assignments rename, loops carry)
+# ----------------------------------------------------------------------------------------------------------------------
+class Seq:
+    def __init__(self, spec):
+        self.spec = spec
+        self.out = []
+
+    def run(self, node, env):
+        self.expr(node, env)
+        return self.out
+
+    def assigned_locals(self, node):
+        s = set()
+        for n in H.walk(node):
+            if H.kind(n) in ("Assign", "AssignOp"):
+                l = H.path_local(n["l"])
+                if l:
+                    s.add(l[0])
+        return s
+
+    def emit_call(self, n, env):
+        c = H.callee(n) or ""
+        for label, rx in self.spec.get("calls", []):
+            if re.search(rx, c):
+                args = [canon(a, env) for a in H.call_args(n)]
+                self.out.append("%s(%s)" % (label, ", ".join(args)))
+                return
+
+    def bind(self, pat, base, env):
+        if H.kind(pat) == "Bind" and pat.get("sub") is None:
+            env.names[pat["local"]] = base
+        else:
+            for l, p in A.pat_paths(pat).items():
+                env.names[l] = "%s/%s" % (base, p) if p else base
+
+    def copy(self, env):
+        e = A.ArmEnv()
+        e.strip = True
+        e.names = dict(env.names)
+        return e
+
+    def expr(self, n, env):
+        if not isinstance(n, dict):
+            return
+        k = H.kind(n)
+        if k == "Block" or (k is None and "stmts" in n):
+            for st in n.get("stmts", []):
+                self.stmt(st, env)
+            if n.get("expr") is not None:
+                self.expr(n["expr"], env)
+            return
+        if k == "Match" and H.is_for(n):
+            pat, it, body = H.for_parts(n)
+            self.expr(it, env)
+            e2 = self.copy(env)
+            carried = self.assigned_locals(body) if body is not None else set()
+            for l in carried:
+                if l in e2.names:
+                    e2.names[l] = "loop(%s)" % e2.names[l]
+            if pat is not None:
+                self.bind(pat, "(each %s)" % canon(it, env), e2)
+            self.out.append("for each %s {" % canon(it, env))
+            if body is not None:
+                self.expr(body, e2)
+            self.out.append("}")
+            for l in carried:
+                if l in env.names:
+                    env.names[l] = "loop(%s)" % env.names[l]
+            return
+        if k == "Match" and H.is_try(n):
+            self.expr(H.try_inner(n), env)
+            return
+        if k == "Match":
+            self.expr(n["scrut"], env)
+            base = canon(n["scrut"], env)
+            if self.spec.get("branch_matches"):
+                self.out.append("match %s {" % base)
+            for a in n["arms"]:
+                e2 = self.copy(env)
+                for l, p in A.pat_paths(A.strip_or(a["pat"])).items():
+                    e2.names[l] = "%s/%s" % (base, p) if p else base
+                if self.spec.get("branch_matches"):
+                    self.out.append("| %s =>" % A.pat_shape(a["pat"]))
+                if a.get("guard") is not None:
+                    self.expr(a["guard"], e2)
+                self.expr(a["body"], e2)
+            if self.spec.get("branch_matches"):
+                self.out.append("}")
+            return
+        if k == "If":
+            self.expr(n["c"], env)
+            c = H.peel(n["c"])
+            e2 = self.copy(env)
+            if H.kind(c) == "LetExpr":
+                self.bind(c["pat"], canon(c["init"], env), e2)
+            if self.spec.get("branch_ifs"):
+                self.out.append("if %s {" % canon(n["c"], env))
+            self.expr(n["t"], e2)
+            if n.get("e") is not None:
+                if self.spec.get("branch_ifs"):
+                    self.out.append("} else {")
+                self.expr(n["e"], self.copy(env))
+            if self.spec.get("branch_ifs"):
+                self.out.append("}")
+            return
+        if k == "Closure":
+            e2 = self.copy(env)
+            for i, p in enumerate(n["params"]):
+                for l, pth in A.pat_paths(p, "C%d" % i).items():
+                    e2.names[l] = "$" + pth
+            self.expr(n["body"], e2)
+            return
+        if k in ("Assign", "AssignOp"):
+            self.expr(n["r"], env)
+            l = H.path_local(n["l"])
+            lcanon = canon(n["l"], env)
+            for rx in self.spec.get("assign", []):
+                if re.search(rx, lcanon):
+                    self.out.append("%s := %s" % (lcanon, canon(n["r"], env)))
+            if l and k == "Assign":
+                env.names[l[0]] = canon(n["r"], env)
+            return
+        if k == "LetExpr":
+            self.expr(n["init"], env)
+            return
+        # generic: children first (evaluation order), then the node's own event
+        for c in H.children(n):
+            self.expr(c, env)
+        if k in ("Call", "MethodCall"):
+            self.emit_call(n, env)
+        elif k == "Ret" and self.spec.get("returns"):
+            self.out.append("return %s" % canon(n.get("e"), env))
+
+    def stmt(self, st, env):
+        k = H.kind(st)
+        if k == "Let":
+            if st.get("init") is not None:
+                self.expr(st["init"], env)
+                self.bind(st["pat"], canon(st["init"], env), env)
+            if st.get("els") is not None:
+                self.expr(st["els"], self.copy(env))
+        elif k in ("Semi", "Expr"):
+            self.expr(st["e"], env)
+
+
+def extract_seq(facts, fn, spec, pick=None):
+    h = facts.hir(fn)
+    if h is None:
+        return None
+    env0 = A.ArmEnv()
+    env0.strip = True
+    env0.bind_params(h)
+    m = pick(h, env0) if pick else A.find_match_on(h["body"], lambda n: True)
+    if m is None:
+        return None
+    # lets before the dispatch match
+    pre = H.peel(h["body"])
+    seq0 = Seq(spec)
+    for st in pre.get("stmts", []):
+        if H.kind(st) == "Let" and st.get("init") is not None:
+            seq0.bind(st["pat"], canon(st["init"], env0), env0)
+    table = {}
+    for a in m["arms"]:
+        env = seq0.copy(env0)
+        env.bind_pat(A.strip_or(a["pat"]))
+        s = Seq(spec)
+        table[A.pat_shape(a["pat"])] = {"events": s.run(a["body"], env), "ln": a["ln"]}
+    return table
+
+
+def extract_seq_whole(facts, fn, spec):
+    h = facts.hir(fn)
+    if h is None:
+        return None
+    env = A.ArmEnv()
+    env.strip = True
+    env.bind_params(h)
+    s = Seq(spec)
+    return {"(whole body)": {"events": s.run(h["body"], env), "ln": facts.bodies()[fn]["loc"][1]}}
+
+
 if __name__ == "__main__":
     import sys
     from . import facts as fm
@@ -207,3 +418,5 @@ if __name__ == "__main__":
             print("wrote", p)
         else:
             print(json.dumps(data, indent=1))
+
+
